@@ -56,7 +56,9 @@ inductive TokScan where
 def tokMatchLoop : Bytes â†’ Bytes â†’ TokScan
   | [], _ => .eos                                    -- sc == 0
   | sc :: str, tc :: tk =>
-      if ! charsEqCaseless sc tc then .brk str
+      if ! charsEqCaseless sc tc then
+        (if sc == 44 then .brk (sc :: str)            -- "The comma is the end of the current substring": `str--`
+         else .brk str)
       else if tk.isEmpty then                         -- i >= token_len
         let s' := str.dropWhile isWs
         match s' with
@@ -147,7 +149,9 @@ def removeTokenLoop (bufSize : Nat) (token : Bytes) : Nat â†’ Bytes â†’ Bytes â†
     let s3 := m.2.dropWhile isWs
     if full && atEndOrComma s3 then removeTokenLoop bufSize token fuel s3 out true
     else
-      match copyOneToken bufSize s1 (if full then s3 else m.2) out with
+      -- not a full match: copying restarts right after the matched part (`s1 = match_end`), so the
+      -- whitespace that follows is normalised like any other
+      match copyOneToken bufSize s1 m.2 out with
       | none => none
       | some (s'', out2) => removeTokenLoop bufSize token fuel s'' out2 rem
 
